@@ -159,3 +159,71 @@ Definition create_job_pod (ver retry : Z) (t : task) (x : task_extra) (i : Z) : 
 (* syncJob builds every missing replica of a task from ONE copy of the task template before it creates any *)
 Definition create_task_pods (ver retry : Z) (t : task) (x : task_extra) (idxs : list Z) : list pod_fields :=
   map (create_job_pod ver retry t x) idxs.
+
+(* ---------- createJobPod at the level of the pod object: label / annotation MAPS ----------
+   (job_controller_util.go 46-180.  Go maps are references: a template's maps handed to a pod
+   without a copy are shared by every pod built from that template.) *)
+Inductive val := VNum (z : Z) | VTask (t : positive) | VGroup (name uid : Z) | VTmpl (name : Z) (t : positive).
+Definition kmap := list (Z * val).
+Fixpoint kget (k : Z) (m : kmap) : option val :=
+  match m with [] => None | (k', v) :: r => if Z.eqb k k' then Some v else kget k r end.
+Fixpoint kset (k : Z) (v : val) (m : kmap) : kmap :=
+  match m with
+  | [] => [(k, v)]
+  | (k', v') :: r => if Z.eqb k k' then (k', v) :: r else (k', v') :: kset k v r
+  end.
+Definition ksets (kvs : list (Z * val)) (m : kmap) : kmap := fold_left (fun m kv => kset (fst kv) (snd kv) m) kvs m.
+
+(* the keys createJobPod writes *)
+Definition K_TASK_INDEX := 1. Definition K_TASK_SPEC := 2. Definition K_GROUP := 3. Definition K_JOB_NAME := 4.
+Definition K_QUEUE := 5. Definition K_JOB_VERSION := 6. Definition K_TEMPLATE := 7. Definition K_RETRY := 8.
+Definition K_NAMESPACE := 9.
+
+Record jobid := mkJob { j_name : Z; j_uid : Z; j_ns : Z; j_queue : Z; j_version : Z; j_retry : Z }.
+
+Definition ann_writes (j : jobid) (t : positive) (i : Z) : list (Z * val) :=
+  [(K_TASK_INDEX, VNum i); (K_TASK_SPEC, VTask t); (K_GROUP, VGroup (j_name j) (j_uid j)); (K_JOB_NAME, VNum (j_name j));
+   (K_QUEUE, VNum (j_queue j)); (K_JOB_VERSION, VNum (j_version j)); (K_TEMPLATE, VTmpl (j_name j) t);
+   (K_RETRY, VNum (j_retry j))].
+Definition lbl_writes (j : jobid) (t : positive) (i : Z) : list (Z * val) :=
+  [(K_TASK_INDEX, VNum i); (K_JOB_NAME, VNum (j_name j)); (K_TASK_SPEC, VTask t); (K_NAMESPACE, VNum (j_ns j));
+   (K_QUEUE, VNum (j_queue j))].
+
+Record pod_obj := mkPO {
+  po_name : Z * positive * Z;          (* "<job>-<task>-<index>" *)
+  po_ns : Z;
+  po_owner : option (Z * Z);           (* controller owner reference: (job name, job uid) *)
+  po_ann : kmap;
+  po_lbl : kmap }.
+
+(* the pod createJobPod returns when it is given the maps [ann] / [lbl] to write into *)
+Definition make_pod (j : jobid) (t : positive) (i : Z) (ann lbl : kmap) : pod_obj :=
+  mkPO (j_name j, t, i) (j_ns j) (Some (j_name j, j_uid j)) (ksets (ann_writes j t i) ann) (ksets (lbl_writes j t i) lbl).
+
+(* the real code copies the template for every pod (template.DeepCopy()) ... *)
+Definition build_pods (j : jobid) (t : positive) (ta tl : kmap) (idxs : list Z) : list pod_obj :=
+  map (fun i => make_pod j t i ta tl) idxs.
+(* ... a version that hands the template's own maps to every pod: all pods of the pass end up
+   reading the maps as the LAST createJobPod call left them *)
+Definition build_pods_shared (j : jobid) (t : positive) (ta tl : kmap) (idxs : list Z) : list pod_obj :=
+  let fa := fold_left (fun m i => ksets (ann_writes j t i) m) idxs ta in
+  let fl := fold_left (fun m i => ksets (lbl_writes j t i) m) idxs tl in
+  map (fun i => mkPO (j_name j, t, i) (j_ns j) (Some (j_name j, j_uid j)) fa fl) idxs.
+
+(* pkg/scheduler/api getJobID: namespace "/" group-name annotation *)
+Definition sched_job_id (p : pod_obj) : option (Z * Z * Z) :=
+  match kget K_GROUP (po_ann p) with Some (VGroup n u) => Some (po_ns p, n, u) | _ => None end.
+
+(* the numeric record compared with the Go pods (selector 6) is READ from the pod object: the template's
+   own label / annotation live under K_USER (absent when the generator gives none) *)
+Definition K_USER := 100.
+Definition tmpl (v : Z) : kmap := if 0 <? v then [(K_USER, VNum v)] else [].
+Definition gnum (k : Z) (m : kmap) : Z := match kget k m with Some (VNum z) => z | _ => -1 end.
+Definition gtask (k : Z) (m : kmap) : positive := match kget k m with Some (VTask t) => t | _ => xH end.
+Definition guser (m : kmap) : Z := match kget K_USER m with Some (VNum z) => z | _ => 0 end.
+Definition read_fields (p : pod_obj) : pod_fields :=
+  mkPF (gtask K_TASK_SPEC (po_ann p)) (gnum K_TASK_INDEX (po_ann p)) (gtask K_TASK_SPEC (po_lbl p)) (gnum K_TASK_INDEX (po_lbl p))
+       (gnum K_JOB_VERSION (po_ann p)) (gnum K_RETRY (po_ann p)) (guser (po_lbl p)) (guser (po_ann p)).
+(* all missing replicas of task t (template: user label from x_cpu, user annotation from x_mem), one pass *)
+Definition task_pod_objs (ver retry : Z) (t : task) (x : task_extra) (idxs : list Z) : list pod_obj :=
+  build_pods (mkJob 1 1 1 1 ver retry) (t_name t) (tmpl (x_mem x)) (tmpl (x_cpu x)) idxs.
